@@ -13,6 +13,35 @@ INFIX = {'gp': operator.mul, 'op': operator.xor, 'ip': operator.or_, 'rp': opera
 SHAPES = [(3,), (2, 2), (1,), (4,), (2, 1), (1, 3), (2, 3)]
 
 
+def _touch_then_overwrite(a, op, args, params, rng, K):
+    """An object with the blades, container and shapes of `a` but other values, used once, then overwritten in place with
+    the values of `a` (x[...] = a).  Falls back to `a` itself whenever the overwrite did not produce exactly a's values
+    (assignment is judged by the setitem events, not here)."""
+    import numpy as np
+    from kingdon import MultiVector
+    vals = a.values()
+    try:
+        if isinstance(vals, np.ndarray):
+            other = rng.randint(1, 3) + np.array(vals) * 0 + np.arange(vals.size).reshape(vals.shape) % 5
+        elif isinstance(vals, (list, tuple)) and vals and all(isinstance(v, np.ndarray) for v in vals):
+            other = type(vals)(rng.randint(1, 3) + v * 0 + np.arange(v.size).reshape(v.shape) % 5 for v in vals)
+        else:
+            return a
+        b = MultiVector.fromkeysvalues(a.algebra, a.keys(), other)
+        for f in (lambda: K.apply_op(op, [b if x is a else x for x in args], params), lambda: b.inv(), lambda: b.normsq(),
+                  lambda: (b.grades, b.type_number, b.issymbolic, b.free_symbols), lambda: b * b, lambda: ~b):
+            try:
+                f()
+            except Exception:   # noqa: BLE001
+                pass
+        b[Ellipsis] = a
+        same = len(b.values()) == len(vals) and all(np.array_equal(np.asarray(x), np.asarray(y)) and np.asarray(x).shape == np.asarray(y).shape
+                                                     for x, y in zip(b.values(), vals))
+        return b if same and b.keys() == a.keys() else a
+    except Exception:   # noqa: BLE001
+        return a
+
+
 def run_job(job):
     import numpy as np
     import kdriver as K
@@ -69,6 +98,11 @@ def run_job(job):
             if ar == 2 and rng.random() < 0.2:
                 k = rand_keys(3)
                 args[rng.randint(0, 1)] = MultiVector.fromkeysvalues(alg, k, [rng.randint(-4, 4) for _ in k])
+            # state left on an operand object must not survive its in-place update: a third of the cases build the operands
+            # with OTHER values first, use them once (the same operator, the inverse, the cached attributes; unrecorded), and
+            # then overwrite them in place through the public __setitem__ before the recorded call
+            if rng.random() < 0.34:
+                args = [_touch_then_overwrite(a, op, args, params, rng, K) for a in args]
             raised, res = '', None
             try:
                 res = K.apply_op(op, args, params)
@@ -101,6 +135,50 @@ def run_job(job):
             events.append(ev)
         except (K.EncodeError, ValueError, OverflowError) as e:
             skipped.append([eid, op, str(e)[:80]])
+    # ---- (a2) inverse of an operand that was inverted before and then overwritten in place ---------------
+    # (unit blades with coefficients +-1 in every lane: the inverse is integral, so the lane-wise certificate applies)
+    nonnull = []
+    for k in alg.canon2bin.values():
+        try:
+            sq = MultiVector.fromkeysvalues(alg, (k,), [1]) * MultiVector.fromkeysvalues(alg, (k,), [1])
+            if any(v != 0 for v in sq.values()):
+                nonnull.append(k)
+        except Exception:   # noqa: BLE001
+            pass
+    for ci in range(max(3, n // 8) if nonnull else 0):
+        eid = f"{job['prefix']}:v{ci}"
+        try:
+            shape = rng.choice([(2,), (3,), (2, 2)])
+            cont = rng.choice(['ndarray', 'list', 'tuple'])
+            k = rng.choice(nonnull)
+            size = int(np.prod(shape))
+            fin = np.array([rng.choice((1.0, -1.0)) for _ in range(size)], dtype=float).reshape(shape)   # float: integer dtypes hit known finding F10
+            oth = fin.copy().reshape(-1)
+            for j in rng.sample(range(size), rng.randint(1, size)):
+                oth[j] = -oth[j]
+            oth = oth.reshape(shape)
+            mk = lambda arr: MultiVector.fromkeysvalues(alg, (k,), np.stack([arr]) if cont == 'ndarray' else (tuple([arr]) if cont == 'tuple' else [arr]))   # noqa: E731
+            b = mk(oth)
+            try:
+                b.inv()
+            except Exception:   # noqa: BLE001
+                pass
+            b[Ellipsis] = mk(fin.copy())
+            if not np.array_equal(np.asarray(b.values()[0]), fin):
+                continue
+            raised, res = '', None
+            try:
+                res = b.inv()
+            except Exception as e:   # noqa: BLE001
+                raised = type(e).__name__
+            ev = {'id': eid, 'kind': 'bcast', 'op': 'inv', 'params': [], 'args': [rec_arr(b)], 'raised': raised,
+                  'res': {'keys': [], 'shape': [], 'flat': []}, 'lanes': [[l_] for l_ in range(size)]}
+            if res is not None:
+                ev['res'] = {'keys': [int(x) for x in res.keys()], 'shape': list(shape),
+                             'flat': [ints(np.broadcast_to(np.asarray(v), shape)) for v in res.values()]}
+            events.append(ev)
+        except (K.EncodeError, ValueError, OverflowError) as e:
+            skipped.append([eid, 'inv', str(e)[:80]])
     # ---- (b) indexing and assignment through a multivector --------------------------------------
     idx_pool = [0, -1, slice(None), slice(1, None), slice(None, None, 2), (0,), (slice(None), 0), (1, slice(None)), (-1, -1),
                 (slice(0, 1), slice(None)), Ellipsis, (Ellipsis, 0),
